@@ -26,6 +26,13 @@
     keyword; run(mesh=) / detect(mesh) / detect(mesh=) / detector(mesh) the same as run(mesh); extract_border_cycle without a
     starting point the same as with the documented default given explicitly, and every border entry point called by keyword the same
     as by position. inspect.signature() of every entry point is compared with the pinned table (C15.defaults.signature).
+(f) where the surface sits and in which unit its lengths are given: every feature family of (b) and a sub-family of the border
+    inputs of (a) once more under the exact maps p -> 2^j p + T (PLACES: T = (2^k, -2^k, 2^(k-1)) with 2^k up to 10^9 .. 10^12 times
+    the size of the surface, T on one axis only, T = 0 with units of 2^-60 .. 2^60), the coordinates being first rounded to multiples
+    of 2^-m so that the map is exact in binary floating point. Border loops, angles between normals and angle sums do not change
+    under such a map: all clauses of (a) / (b) are evaluated again on the placed surface (reference evaluated on the placed
+    coordinates and required to classify every edge as at the origin); what is right at the origin and wrong on the placed surface is
+    reported under the class suffix ':far_from_origin' / ':unit_of_length'.
 """
 from __future__ import annotations
 import math
@@ -44,7 +51,9 @@ RULE = ("border: one case = (labelled manifold face list, sort_neighborhoods); e
         "integer form of the starting point), both also with config.display_duplicate_attribute_warning on. detector re-use: one case = (ordered pair of surfaces that differ in the band of "
         "an edge or in their face list, other mesh object | same object deformed, declaration, options). defaults / call forms: one case = "
         "(mesh, declaration, construction form of the detector: which options are left out / given by position) and (mesh, border vertex, "
-        "keyword form of the border call), each compared with the same call with every argument explicit")
+        "keyword form of the border call), each compared with the same call with every argument explicit. placements: one case = (member of a "
+        "feature family with its coordinates rounded to multiples of 2^-m, declaration, option vector, exact map p -> 2^j p + T), judged by the "
+        "base clauses against the reference of the placed coordinates, and (border input, sort_neighborhoods, exact map) for the three border entry points")
 ASSUMPTIONS = [
     "inputs are oriented manifold polygon complexes (checked by mc.families.is_oriented_manifold) with planar, "
     "non-degenerate faces; mesh.edges is taken as the edge numbering (construction is C02's subject)",
@@ -70,6 +79,12 @@ ASSUMPTIONS = [
     "the docstrings); the clauses only compare a call form with the fully explicit call on an identical fresh mesh (whose answer is "
     "the subject of the base clauses); 'verbose' is observed through the text printed on stdout during construction + run; "
     "feature_graph / corner_point_cloud are compared by presence and sizes only",
+    "placements: only maps that are exact on the rounded coordinates are played (exact rational predicate per coordinate; an inexact "
+    "specimen would be dropped and counted: placed:filtered_inexact_coordinates, none in the pinned families); the translation is "
+    "(2^k, -2^k, 2^(k-1)) or -2^k on one axis, k <= 40; the unit of length 2^j, |j| <= 60; the reference of the placed coordinates must "
+    "reproduce the classification at the origin (placed:reference_not_invariant is a harness failure); placed runs are not repeated "
+    "with previous-run states, warm blackboard or the duplicate-attribute switch; a float formula on absolute positions at these "
+    "distances loses all significant bits of a normal (self-test: under every three-axis translation of PLACES the origin-based area vector of a placed hinge is off by > 0.01 rad or zero, the one built on edge vectors by < 1e-7; a one-axis translation costs log2(distance / size) bits only)",
 ]
 BOUNDS = {
     "quick": "border: SURF triangles n<=5 all labelled (434), tri+quad n=4 all, n=5 <=4 faces, pentagons, SURF(6) classes (28), face-listing deviations <=1 on n<=4, "
@@ -81,12 +96,19 @@ BOUNDS = {
              "7 surfaces of different sizes x 2-3 declarations x 2-3 options (1008 cases); defaults / call forms: 19 surfaces (hinges either side "
              "of both thresholds, accordions, cones, bipyramid, closed solids, flat grid, 4-loop plate, annulus) x 2 declarations x 36 construction "
              "forms of the detector (1 all-omitted + 5 options x 3 vectors of the others + 4 vectors x 5 positional prefixes) + 2 x 4 run forms; "
-             "border call forms on the 209 history meshes x 2 sorts x every border vertex x 3 keyword forms; 6 signatures",
+             "border call forms on the 209 history meshes x 2 sorts x every border vertex x 3 keyword forms; 6 signatures; "
+             "placements: coordinates rounded to 2^-18, maps x1 + T(2^30), x2^-10 + T(2^24), x2^-30, x2^30 on every 2nd hinge (91), every 3rd hinge2 / "
+             "accordion / SURF(<=5, 6 classes) member, every 2nd cone / ZOO member, every 4th non-convex quad pair (404 surfaces) x 3 declarations x 3 option "
+             "vectors (14544 placed detections), sorted rings; border: grids, swiss, ZOO, every 9th holey grid, every 11th SURF(5) / tri+quad / pentagon "
+             "listing (64 inputs) x 2 sorts x 4 maps",
     "thorough": "border: + SURF(6) all labelled (12934), face-listing deviations <=1 on triangles n=5, tri+quad n=5 <=5 faces (2612), holey 3x4 tri all (743), 4x5 quad all, "
                 "4x4 tri <=5 removed, 4x4 mixed <=4 removed, 5x5 quad <=3 removed, 3x3 mixed all; features: + hinge shapes/orientations x 40 per side, accordions with 2 folds (all 72 angle "
                 "pairs x 4 modes x 2 widths) and 3 folds (54 angle triples x 2 sign patterns x 2 modes), all 12 options, all cones/bipyramids, SURF(6) all labelled, previous-run states on every family; "
                 "histories / integer forms (x duplicate-attribute switch off/on): + SURF triangles n=5, face-listing deviations n=4, holey 4x4 quad, 3x4 tri; detector re-use: 11 hinges, 9 accordions x 3 modes, 9 surfaces of different sizes, more options; "
-                "defaults / call forms: 20 surfaces x both sorts, border call forms on the thorough history family",
+                "defaults / call forms: 20 surfaces x both sorts, border call forms on the thorough history family; "
+                "placements: every member of every feature family (hinge_fine and SURF(6) all labelled excepted) x both sorts x 3 declarations x 3 option vectors x "
+                "11 maps (rounded to 2^-18: x1 + T(2^30), x2^-10 + T(2^24), -2^30 on z, x2^-10 - 2^24 on x, units 2^-30, 2^30, 2^-60, 2^60; rounded to 2^-10: "
+                "x1 + T(2^40), x2^-10 + T(2^30), x2^8 - 2^40 on y); border: every 2nd holey grid, all SURF(5) / tri+quad n=4 / pentagon listings, grids, swiss, ZOO x 2 sorts x 11 maps",
 }
 
 OPTS_ALL = [[ob, fc, co] for ob in (False, True) for fc in (True, False) for co in (4, 2, 6)]
@@ -321,6 +343,42 @@ def _selftest():
         p, f = L.swiss(mode)
         assert F.is_oriented_manifold(f, len(p)) and len(F.border_loops(f)) == 4 and len(F.components(len(p), F.undirected_edges(f))) == 1
     assert sorted(map(sorted, F.border_loops([(0, 1, 2), (0, 2, 3)]))) == [[0, 1, 2, 3]] and L.chords_of([(0, 1, 2), (0, 2, 3)]) == [(0, 2)]
+    # placements: the maps are exact on the rounded coordinates, the reference does not change under them, and they are far /
+    # small / large enough to discriminate: a float formula on absolute positions (area vector = sum of P[i-1] x P[i]) no longer
+    # gives the normal of a placed triangle, one on edge vectors gives it to the last bits
+    from fractions import Fraction as Fr
+    for tier in ("quick", "thorough"):
+        for places in PLACES[tier]:
+            for th in (L.TH60 + 0.01, L.TH37 - 0.01, 2.6):
+                p0 = L.quantize(L.hinge(th)[0], places["m"])
+                fl = L.hinge(th)[1]
+                o0 = L.FeatureOracle(p0, fl)
+                for j, k, axis in places["maps"]:
+                    pp = L.place(p0, j, k, axis)
+                    assert pp is not None, (places, j, k, axis)
+                    T = L.far_vector(k, axis)
+                    assert all(Fr(pp[v][c]) == Fr(p0[v][c]) * Fr(2) ** j + T[c] for v in range(4) for c in range(3))
+                    o1 = L.FeatureOracle(pp, fl)
+                    assert o1.band == o0.band and o1.border == o0.border
+                    cr = lambda u, w: (u[1] * w[2] - u[2] * w[1], u[2] * w[0] - u[0] * w[2], u[0] * w[1] - u[1] * w[0])
+                    sub = lambda u, w: (u[0] - w[0], u[1] - w[1], u[2] - w[2])
+
+                    def off(n, exact):
+                        nn = math.sqrt(sum(x * x for x in n)); ne = math.sqrt(float(sum(x * x for x in exact)))
+                        if nn == 0:
+                            return math.pi
+                        return math.acos(max(-1.0, min(1.0, sum(float(x) * y for x, y in zip(exact, n)) / (nn * ne))))
+                    worst_good, worst_naive = 0.0, 0.0
+                    for f in fl:
+                        a, b, c = (pp[v] for v in f)
+                        good = cr(sub(b, a), sub(c, a))
+                        terms = [cr(c, a), cr(a, b), cr(b, c)]
+                        naive = tuple(terms[0][i] + terms[1][i] + terms[2][i] for i in range(3))
+                        exact = cr(tuple(map(Fr, sub(b, a))), tuple(map(Fr, sub(c, a))))
+                        worst_good, worst_naive = max(worst_good, off(good, exact)), max(worst_naive, off(naive, exact))
+                    assert worst_good < 1e-7, (places, j, k, axis, worst_good)
+                    if k is not None and axis is None:      # (a translation along one axis costs only log2(distance / size) bits)
+                        assert worst_naive > 0.01, (places, j, k, axis, worst_naive)
 
 
 def tasks(tier):
@@ -361,6 +419,49 @@ def tasks(tier):
             for i in range(0, len(meshes), batch):
                 out.append({"kind": "feat", "family": fam, "sort": sort, "meshes": meshes[i:i + batch],
                             "decls": d, "opts": o, "prevs": prevs})
+    out += _placed_tasks(tier, ins)
+    return out
+
+
+# ------------------------------------------------------------------------------------------ placements
+# [j, k, axis]: p -> 2^j p + T with T = (2^k, -2^k, 2^(k-1)) (axis None), -2^k on one axis (axis 0..2), or 0 (k None: unit of
+# length only). "m": the coordinates are first rounded to multiples of 2^-m, which makes every map of the entry exact.
+PLACES = {
+    "quick": [{"m": 18, "maps": [[0, 30, None], [-10, 24, None], [-30, None, None], [30, None, None]]}],
+    "thorough": [{"m": 18, "maps": [[0, 30, None], [-10, 24, None], [0, 30, 2], [-10, 24, 0], [-30, None, None], [30, None, None],
+                                    [-60, None, None], [60, None, None]]},
+                 {"m": 10, "maps": [[0, 40, None], [-10, 30, None], [8, 40, 1]]}],
+}
+PLACED_DECLS = [["raw", "none"], ["raw", "all"], ["sparse_false", "odd"]]
+PLACED_OPTS = [[False, True, 4], [False, True, 6], [True, True, 2]]
+
+
+def _placed_tasks(tier, border_ins):
+    """Every feature family and a sub-family of the border inputs once more in other units of length and far from the origin
+    (quick: every second / third member of a family, by fixed stride; thorough: all)."""
+    q = tier == "quick"
+    out = []
+    seen = set()
+    stride = {"hinge": 2, "hinge2": 3, "accordion": 3, "cone": 2, "surf": 3, "zoo": 2, "nonconvex": 4} if q else {}
+    for fam, meshes, decls, opts, prevs, batch in _feature_plan(tier):
+        if fam in seen or fam in ("surf6", "hinge_fine"):
+            continue
+        seen.add(fam)
+        ms = meshes[::stride.get(fam, 1)]
+        for places in PLACES[tier]:
+            for sort in ((True,) if q else (True, False)):
+                b = {"hinge": 12, "hinge2": 12, "surf": 16, "nonconvex": 8}.get(fam, 4)
+                for i in range(0, len(ms), b):
+                    out.append({"kind": "feat", "family": fam, "sort": sort, "meshes": ms[i:i + b], "decls": PLACED_DECLS,
+                                "opts": PLACED_OPTS, "prevs": [None], "places": places})
+    pre = ("grid", "swiss", "octahedron", "tetrahedron_surface", "cube_quads", "csaszar_torus", "icosahedron", "annulus", "torus")
+    sub = [x for x in border_ins if x[0].startswith(pre)]
+    sub += [x for x in border_ins if x[0].startswith("holey")][::(9 if q else 2)]
+    sub += [x for x in border_ins if x[0].startswith(("tri5#", "mix4#", "pent5#"))][::(11 if q else 1)]      # (moment curve)
+    for places in PLACES[tier]:
+        for sort in (True, False):
+            for i in range(0, len(sub), 12):
+                out.append({"kind": "border", "sort": sort, "meshes": sub[i:i + 12], "places": places})
     return out
 
 
@@ -391,7 +492,7 @@ def _judge_walk(vb, start, loop_of, loops, bedges):
     return None
 
 
-def _check_border_mesh(M, name, n, pts, faces, sort, rep: Report):
+def _check_border_mesh(M, name, n, pts, faces, sort, rep: Report, placement=None):
     from mouette.processing import extract_border_cycle, extract_border_cycle_all, extract_boundary_of_surface
     P = pts if pts is not None else F.moment_curve(n)
     loops = F.border_loops(faces)
@@ -400,6 +501,12 @@ def _check_border_mesh(M, name, n, pts, faces, sort, rep: Report):
     bedges = set(_norm(a, b) for a, b in F.border_half_edges(faces))
     icls = f"sort={sort}"
     base = {"mesh": name, "points": "moment_curve" if pts is None else P, "faces": faces, "sort": sort}
+    if placement is not None:
+        # the same face list with its points in another unit of length / far from the origin (exact map): only the class of
+        # what is found says so; border loops are combinatorial, the polyline must carry the placed coordinates
+        icls += ":" + placement[0]
+        base["placement"] = placement[1]
+        rep.count("placed_border_meshes:" + placement[0])
     build = lambda: F.build_surface(P, faces)
 
     m = build()
@@ -488,6 +595,8 @@ def _check_border_mesh(M, name, n, pts, faces, sort, rep: Report):
         j = call(_judge_polyline, o.value, m, bverts, bedges, rep)
         verdict = j.value if j.ok else ("result_shape", {"got": repr(o.value)[:300], "reading_it_raised": f"{j.exc}: {j.msg}"})
         rep.outcome("polyline", verdict[0] if verdict else "ok")
+        if placement is not None:
+            rep.outcome(f"placed:{placement[0]}:polyline", verdict[0] if verdict else f"ok:loops={min(len(loops), 3)}")
         if verdict:
             bad("polyline." + verdict[0].split(":")[0], "extract_boundary_of_surface", "mismatch:" + verdict[0], verdict[1])
 
@@ -893,6 +1002,8 @@ def _check_detector(rep: Report, det, m, orc, cx, phase, baseline):
             rep.count("filtered_ill_conditioned"); continue
         if not ob:
             rep.outcome(f"edge:{band}:{dstate}", got)
+            if phase in ("far_from_origin", "unit_of_length") and not orc.border[e]:
+                rep.outcome(f"placed:{phase}:edge", got)
         else:
             rep.outcome(f"edge:only_border:{'border' if orc.border[e] else 'interior'}", got)
         if got != want:
@@ -963,6 +1074,8 @@ def _check_detector(rep: Report, det, m, orc, cx, phase, baseline):
                     ok = (g == r) or (r == 0 and g == 1)
                     rep.evaluations += 1
                     rep.outcome("corner", g)
+                    if phase in ("far_from_origin", "unit_of_length"):
+                        rep.outcome(f"placed:{phase}:corner", g)
                     if not ok:
                         where = "border" if any(orc.border[E[i]] for i in inc[v]) else "interior"
                         bad("corners", "FeatureEdgeDetector.corners", "mismatch:corner_order",
@@ -979,7 +1092,7 @@ def _check_detector(rep: Report, det, m, orc, cx, phase, baseline):
                     break
 
 
-def _run_feature_mesh(M, rep: Report, task, name, pts, faces, orc, und):
+def _run_feature_mesh(M, rep: Report, task, name, pts, faces, orc, und, placed=None):
     from mouette.processing import FeatureEdgeDetector
     from mouette.attributes import face_normals
     sort = bool(task["sort"])
@@ -1035,6 +1148,63 @@ def _run_feature_mesh(M, rep: Report, task, name, pts, faces, orc, und):
                                       f"only_border={ob}:flag_corners={fc}", {**cx.base, "phase": ph, "msg": c.msg})
                 rep.states += 1
                 rep.case(("feat", name, mode, sel, ob, fc, co, prev, sort))
+            # ---- the same surface in another unit of length / far from the origin (placed[i] = (map, points, reference))
+            for (j, k, axis), ppts, porc in (placed or ()):
+                kindp = L.place_label(j, k, axis)
+                cx = _Ctx()
+                cx.opts, cx.sort, cx.family = (ob, fc, co), sort, task["family"]
+                cx.base = {"mesh": name, "points": ppts, "faces": faces, "hard_edges": [mode, sel], "sort": sort,
+                           "options": {"only_border": ob, "flag_corners": fc, "corner_order": co}, "previous": None,
+                           "placement": {"points_at_the_origin": pts, "multiplied_by": f"2^{j}",
+                                         "then_translated_by": [float(t) for t in L.far_vector(k, axis)]}}
+                o = call(_declare, M, ppts, faces, und, mode, sel)
+                if not o.ok:
+                    rep.count("placed:declaration_raised"); continue
+                m, cx.declared, cx.false_set = o.value
+                cx.E = [tuple(int(x) for x in e) for e in m.edges]
+                cx.eid = {e: i for i, e in enumerate(cx.E)}
+                if sorted(cx.E) != und:
+                    rep.count("premise_failed"); continue
+                det = FeatureEdgeDetector(only_border=ob, flag_corners=fc, corner_order=co,
+                                          compute_feature_graph=(co != 6), verbose=False)
+                r = call(det.run, m)
+                rep.transitions += 1; rep.traces += 1; rep.states += 1
+                rep.count("placed_runs:" + kindp)
+                rep.flag(f"placed:{kindp}:2^{j}:T{k}:axis={axis}")
+                rep.case(("feat_placed", name, mode, sel, ob, fc, co, j, k, axis, sort))
+                if not r.ok:
+                    rep.outcome("placed_run:" + kindp, r.exc)
+                    key = ("run", r.exc)
+                    icls = f"hard_edges={mode}:only_border={ob}"
+                    if key not in baseline:
+                        icls += ":" + kindp
+                    rep.violation("C15.features.run", "FeatureEdgeDetector.run", exc_kind(r), icls, {**cx.base, "phase": kindp, "msg": r.msg})
+                    continue
+                rep.outcome("placed_run:" + kindp, "ok")
+                c = call(_check_detector, rep, det, m, porc, cx, kindp, baseline)
+                if not c.ok:
+                    rep.violation("C15.features.containers", "FeatureEdgeDetector", "raises:" + c.exc,
+                                  f"only_border={ob}:flag_corners={fc}" + ("" if ("containers", c.exc) in baseline else ":" + kindp),
+                                  {**cx.base, "phase": kindp, "msg": c.msg})
+
+
+def _placed_versions(rep, task, name, pts, faces, orc):
+    """[(map, placed points, reference of the placed points)] for the maps of the task. The reference is evaluated on the
+    placed coordinates; as the map is exact, it must classify every edge as at the origin (self-check of the harness)."""
+    out = []
+    for j, k, axis in task["places"]["maps"]:
+        ppts = L.place(pts, j, k, axis)
+        if ppts is None:
+            rep.count("placed:filtered_inexact_coordinates"); continue
+        porc = L.FeatureOracle(ppts, faces)
+        if porc.band != orc.band or porc.border != orc.border or not porc.usable:
+            rep.count("placed:reference_not_invariant"); rep.notes.append(f"{name}: reference differs under the exact map {j},{k},{axis}")
+            continue
+        if any(abs(a - b) > 1e-9 for a, b in zip(porc.angle_sum, orc.angle_sum)):
+            rep.count("placed:reference_not_invariant"); rep.notes.append(f"{name}: angle sums differ under the exact map {j},{k},{axis}")
+            continue
+        out.append(((j, k, axis), ppts, porc))
+    return out
 
 
 def _run_features(M, task, rep: Report):
@@ -1043,6 +1213,8 @@ def _run_features(M, task, rep: Report):
         n = len(pts)
         if not F.is_oriented_manifold(faces, n):
             rep.count("premise_failed"); rep.notes.append(f"{name}: not an oriented manifold"); continue
+        if task.get("places"):
+            pts = L.quantize(pts, int(task["places"]["m"]))
         orc = L.FeatureOracle(pts, faces)
         if not orc.usable:
             rep.count("skipped_nonplanar_or_degenerate_faces"); continue
@@ -1059,7 +1231,10 @@ def _run_features(M, task, rep: Report):
         if len(rep.samples) < 3 and task["family"] in ("accordion", "cone"):
             rep.sample({"family": task["family"], "mesh": name, "faces": faces,
                         "bands": {f"{e[0]}-{e[1]}": orc.band[e] for e in orc.edges}})
-        _run_feature_mesh(M, rep, task, name, pts, faces, orc, und)
+        placed = _placed_versions(rep, task, name, pts, faces, orc) if task.get("places") else None
+        if placed is not None:
+            rep.count("placed_meshes:" + task["family"])
+        _run_feature_mesh(M, rep, task, name, pts, faces, orc, und, placed)
 
 
 def _run_feature_reuse(M, task, rep: Report):
@@ -1513,6 +1688,16 @@ def run_task(task, rep: Report):
                 faces = [tuple(f) for f in faces]
                 if not F.is_oriented_manifold(faces, n):
                     rep.count("premise_failed"); rep.notes.append(f"{name}: not an oriented manifold"); continue
+                if task.get("places"):
+                    P0 = L.quantize(pts if pts is not None else F.moment_curve(n), int(task["places"]["m"]))
+                    for j, k, axis in task["places"]["maps"]:
+                        pp = L.place(P0, j, k, axis)
+                        if pp is None:
+                            rep.count("placed:filtered_inexact_coordinates"); continue
+                        fn(M, name, n, pp, faces, bool(task["sort"]), rep,
+                           (L.place_label(j, k, axis), {"points_at_the_origin": P0, "multiplied_by": f"2^{j}",
+                                                        "then_translated_by": [float(t) for t in L.far_vector(k, axis)]}))
+                    continue
                 fn(M, name, n, pts, faces, bool(task["sort"]), rep)
         elif task["kind"] == "feat_reuse":
             _run_feature_reuse(M, task, rep)
@@ -1602,6 +1787,32 @@ def finish(tier, rep: Report):
     for fl in ("defaults:default_start_is_not_vertex_0", "defaults:border_forms:several_loops"):
         if fl not in rep.flags:
             fails.append("coverage flag missing: " + fl)
+    # ---- placements: every map of the tier was played on every feature family and on the border entry points, the reference
+    # was invariant, nothing was dropped silently, and far from the origin / in other units the detector still gave both answers
+    for places in PLACES[tier]:
+        for j, k, axis in places["maps"]:
+            fl = f"placed:{L.place_label(j, k, axis)}:2^{j}:T{k}:axis={axis}"
+            if fl not in rep.flags:
+                fails.append("placement never played: " + fl)
+    for fam in ("hinge", "hinge2", "accordion", "cone", "surf", "zoo", "nonconvex"):
+        if not rep.counters.get("placed_meshes:" + fam):
+            fails.append("feature family never placed in another unit of length / far from the origin: " + fam)
+    pfloors = {"quick": {"placed_runs:far_from_origin": 7272, "placed_runs:unit_of_length": 7272,      # measured (= pinned family x 9 x 2 maps)
+                         "placed_border_meshes:far_from_origin": 512, "placed_border_meshes:unit_of_length": 512},
+               "thorough": {"placed_runs:far_from_origin": 287000, "placed_runs:unit_of_length": 164000,      # measured 287028 / 164016
+                            "placed_border_meshes:far_from_origin": 37800, "placed_border_meshes:unit_of_length": 21600}}[tier]   # 37870 / 21640
+    for k, v in pfloors.items():
+        if rep.counters.get(k, 0) < v:
+            fails.append(f"{k}: {rep.counters.get(k, 0)} < pinned floor {v}")
+    for k in ("placed:reference_not_invariant", "placed:declaration_raised", "placed:filtered_inexact_coordinates"):
+        if rep.counters.get(k):
+            fails.append(f"{k}: {rep.counters[k]} placed specimens were not judged (see notes): {rep.notes[:3]}")
+    for kindp in ("far_from_origin", "unit_of_length"):
+        if "placed_run:" + kindp not in rep.outcomes:
+            fails.append("placed detections never run: " + kindp)
+        for cl in ("edge", "corner", "polyline"):
+            if len(rep.outcomes.get(f"placed:{kindp}:{cl}", ())) < 2:
+                fails.append(f"placed surfaces ({kindp}): fewer than 2 distinct outcomes of the {cl} clause")
     dfloors = {"quick": {"defaults_meshes": 19, "border_form_meshes": 418}, "thorough": {"defaults_meshes": 40, "border_form_meshes": 3404}}[tier]
     for k, v in dfloors.items():
         if rep.counters.get(k, 0) < v:
@@ -1612,10 +1823,12 @@ def finish(tier, rep: Report):
 def dupflag_variant(task, tier):
     """Tasks that are also run with config.display_duplicate_attribute_warning = True (the runner appends
     ':duplicate_attribute_flag' to the input class of anything found there)."""
+    if task.get("places"):
+        return False
     return bool((task.get("kind") == "feat" and task.get("family") == "surf") or task.get("kind") == "border_hist")
 
 
 def warm_variant(task, tier):
     """Tasks that are also run on meshes whose attribute blackboard is already filled with (valid) persistent attributes
     (mc/families.py WARM; the runner appends ':warm_attribute_blackboard' to the input class of anything found there)."""
-    return bool(task.get("kind") == "feat" and task.get("family") in ("surf", "hinge", "cone"))
+    return bool(task.get("kind") == "feat" and task.get("family") in ("surf", "hinge", "cone") and not task.get("places"))
